@@ -12,7 +12,9 @@ from .hist import build, apply_op, rainbow_code
 ROLES0 = {'R': '31', 'B': '34', 'G': '32', 'W': '1', 'F': '2', 'N': '22', 'U': '4', 'D': '21',
           'X': '38;5;214', 'T': '48;2;1;2;3', 'Z': '0',
           # verbatim settings (documented '[' form): incomplete group, multi-group, invalid, unknown code
-          'p': '[38', 'q': '[32;31', 'x': '[xm', 'u': '[99', 'y': '[38;5;196;1', 'b': 'name:bold', 'r': 'name:fg_red'}
+          'p': '[38', 'q': '[32;31', 'x': '[xm', 'u': '[99', 'y': '[38;5;196;1',
+          # a non-canonical spelling handed over as an AnsiSetting object (leading zero; kept verbatim)
+          'o': '01;31', 'b': 'name:bold', 'r': 'name:fg_red'}
 FG1 = ['31', '34', '32', '33', '35', '36', '91', '94', '92']
 
 
